@@ -77,11 +77,22 @@ def proof_stage(pid, tier):
     if r.returncode != 0:
         res["detail"] = "make failed: " + (r.stdout + r.stderr)[-1500:]
         return res
-    r = sh("timeout 1200 coqc -Q theories MQ theories/Props/%s.v" % pid, cwd=COQ, timeout=1300)
-    if r.returncode != 0:
-        res["detail"] = "coqc failed: " + (r.stdout + r.stderr)[-1500:]
-        return res
-    out = r.stdout
+    # the output of the property file (Print Assumptions, pinned statements) is cached per compiled file:
+    # it is re-computed whenever make rebuilt the .vo (any change to the file or to what it depends on)
+    vo = os.path.join(COQ, "theories", "Props", pid + ".vo")
+    cache = os.path.join(ROOT, "work", "proofcache", pid + ".out")
+    os.makedirs(os.path.dirname(cache), exist_ok=True)
+    if os.path.exists(cache) and os.path.exists(vo) and os.path.getmtime(cache) >= os.path.getmtime(vo) \
+            and os.path.getmtime(cache) >= os.path.getmtime(pf):
+        out = open(cache).read()
+    else:
+        r = sh("timeout 2400 coqc -Q theories MQ theories/Props/%s.v" % pid, cwd=COQ, timeout=2500)
+        if r.returncode != 0:
+            res["detail"] = "coqc failed: " + (r.stdout + r.stderr)[-1500:]
+            return res
+        out = r.stdout
+        with open(cache, "w") as f:
+            f.write(out)
     closed = out.count("Closed under the global context")
     axioms = []
     for m in re.finditer(r"Axioms:\s*\n((?:.+\n?)+?)(?:\n|$)", out):
